@@ -59,6 +59,8 @@ OPS += [
     op("cano_copy", "chain", "derive", [S_ANY], "=0", "{r} = {a0}.copy()\n{r}.ensure_left_canonical()", "CanoCopy"),
     op("compress_copy", "chain", "derive", [S_ANY], "=0",
        "{r} = {a0}.copy()\n{r}.ensure_right_canonical()\n{r}.compress(temp_m_trunc=2)", "CompressCopy", 1.0, "cmp"),
+    op("reload", "chain", "derive", [("mps",)], "=0",
+       "{r} = c13_reload({a0}, Mps, model)\n{r}.compress_config = {a0}.compress_config.copy()\n{r}.evolve_config = {a0}.evolve_config.copy()", "Reload", 1.2),
     op("from_mps", "chain", "derive", [("mps",)], "mpdm", "{r} = MpDm.from_mps({a0})", "FromMps", 1.5),
     op("csum1", "chain", "derive", [S_ANY], "=0", "{r} = compressed_sum([{a0}])", "CompressedSum", 1.5, "cmp"),
     op("csum1_m2", "chain", "derive", [S_ANY], "=0", "{r} = compressed_sum([{a0}], temp_m_trunc=2)", "CompressedSum", 1.0, "cmp"),
@@ -133,6 +135,8 @@ OPS += [
     op("contract", "tree", "derive", [("ttno",), T_ST], "=1", "{r} = {a0}.contract({a1})", "Contract", 1.5, "cmp"),
     op("cano_copy", "tree", "derive", [T_ST], "=0", "{r} = {a0}.copy()\n{r}.canonicalise()", "CanoCopy"),
     op("compress_copy", "tree", "derive", [T_ST], "=0", "{r} = {a0}.copy()\n{r}.canonicalise()\n{r}.compress(temp_m_trunc=2)", "CompressCopy", 1.0, "cmp"),
+    op("reload", "tree", "derive", [T_ST], "=0",
+       "{r} = c13_reload({a0}, TTNS, basis_tree)\n{r}.compress_config = {a0}.compress_config.copy()", "Reload", 1.5),
     op("expand_hint", "tree", "derive", [T_ST, ("ham",)], "=0",
        "{a0}.compress_config = CompressConfig(CompressCriteria.fixed, max_bonddim=6)\n{r} = expand_bond_dimension_general({a0}, hint_mpo={a1})", "Expand", 1.5, "cmp6"),
     op("expand_random", "tree", "derive", [T_ST], "=0",
@@ -164,9 +168,11 @@ OPS += [
     op("poke_op", "tree", "mutate", [("ttno",)], None, "for _n in {t}.node_list:\n    _n.tensor *= 1.1", "PokeSites", 0.5),
 ]
 
-INIT = {"chain": {"a": ("mps", 4), "b": ("mps", 3), "c": ("mps", 4), "d": ("mpdm", 2), "h0": ("mpo", 4), "h1": ("mpo", 4),
-                  "o1": ("mpo", 1), "o2": ("mpo", 1)},
-        "tree": {"a": ("ttns", 4), "b": ("ttns", 3), "c": ("ttns", 4), "h0": ("ttno", 4), "o1": ("ttno", 1)}}
+INIT = {"chain": {"a": ("mps", 4), "b": ("mps", 3), "c": ("mps", 4), "al": ("mps", 3), "d": ("mpdm", 2), "h0": ("mpo", 4), "h1": ("mpo", 4),
+                  "o1": ("mpo", 1), "o2": ("mpo", 1), "o3": ("mpo", 1)},
+        "tree": {"a": ("ttns", 4), "b": ("ttns", 3), "c": ("ttns", 4), "al": ("ttns", 3), "cl": ("ttns", 3),
+                 "h0": ("ttno", 4), "o1": ("ttno", 1), "o2": ("ttno", 1)}}
+LOADED = {"al", "cl"}            # provenance dump -> load
 HAMS = {"chain": ["h0", "h1"], "tree": ["h0"]}
 MAXM = 48
 
@@ -181,6 +187,7 @@ def gen_program(rng, world, pid, length=None, force_op=None):
     """random program 'derive b from a (and maybe c), mutate one, observe the other'"""
     objs = dict(INIT[world])                 # name -> (kind, estimated bond)
     derived = []                             # (result, [operands])
+    loaded_desc = set()                      # results derived from objects that went through dump -> load
     n = length or rng.randint(2, 8)
     ops_w = [o for o in OPS if o["world"] == world]
     steps = []
@@ -209,6 +216,9 @@ def gen_program(rng, world, pid, length=None, force_op=None):
                 rel = [x for x in pool if any(x == r or x in a for r, a in derived)]
                 if rel and rng.random() < 0.7:
                     pool = rel
+                lo = [x for x in pool if x in LOADED or x in loaded_desc]
+                if lo and rng.random() < 0.35:
+                    pool = lo
                 if not pool:
                     ok = False
                     break
@@ -246,6 +256,8 @@ def gen_program(rng, world, pid, length=None, force_op=None):
                 newm = ms[0]
             objs[r] = (kind, newm)
             derived.append((r, list(names)))
+            if o["model"] == "Reload" or any(x in LOADED or x in loaded_desc for x in names):
+                loaded_desc.add(r)
         elif o["cat"] == "mutate":
             st["target"] = names[0]
             fmt["t"] = names[0]
@@ -311,6 +323,15 @@ for _c in _steps + [None]:
         print(">>>", _c.replace("\n", "\n    "))
         exec(_c, globals())
 _bad = 0
+for k in %(probe)r:               # objects that must still be usable: the library's own todense() of them and of a copy
+    try:
+        globals()[k].todense()
+        if hasattr(globals()[k], "copy") and not type(globals()[k]).__name__.endswith("TTNO"):
+            globals()[k].copy().todense()
+        print("object", k, ": todense() works")
+    except Exception as _e:
+        print("object", k, "is unusable after the program:", type(_e).__name__, _e)
+        _bad = 1
 for k in _watch:
     _after = np.array(c13_dense(globals()[k]), dtype=complex)
     _d = float(np.abs(_after - _before[k]).max()) if _after.shape == _before[k].shape else float("inf")
@@ -321,8 +342,8 @@ sys.exit(_bad)
 '''
 
 
-def make_repro(world, seed, steps, watch, world_src, dense_src):
-    return world_src + dense_src + REPLAY_TAIL % {"world": world, "seed": seed, "watch": watch,
+def make_repro(world, seed, steps, watch, world_src, dense_src, probe=()):
+    return world_src + dense_src + REPLAY_TAIL % {"world": world, "seed": seed, "watch": watch, "probe": list(probe),
                                                    "steps": [s["code"] for s in steps]}
 
 
@@ -478,6 +499,16 @@ def run(ctx):
                                           "share": sorted(r["shares"]),
                                           "writes": [(w["kind"], w["fields"], w["what"][:60]) for w in r["writes"] if w["kind"] not in ("config_store", "config_share")]}
                                          for r in rows_]})
+    rc, out = ctx.coq_eval("inplace", "From Coq Require Import List ZArith.\nImport ListNotations.\nFrom RV Require Import Model.Heap.\n"
+                                       "Eval vm_compute in (map (fun w => if inplace_ok w then 1%Z else 0%Z) [Chain; Tree]).\n")
+    ipf = common.parse_Z_list(out) if rc == 0 else None
+    if ipf is not None and len(ipf) == 2 and 0 in ipf:
+        rows_ = [r for r in (oprows or []) if any(w.get("inplace") for w in r["writes"])]
+        bad_ops.append({"in_place_update_of_a_shareable_field": [w_ for w_, f_ in zip(("chain", "tree"), ipf) if f_ == 0],
+                        "methods": sorted({r["fn"] for r in rows_}),
+                        "rows": [{"fn": r["fn"], "variant": r["variant"], "param": r["param"],
+                                  "inplace": sorted({f for w in r["writes"] for f in w.get("inplace", ())}),
+                                  "writes": [(w["kind"], w["fields"], w["what"][:60]) for w in r["writes"] if w.get("inplace")]} for r in rows_]})
     # ------------------------------------------------------------------ 3. observation on the real code
     nprog = {"chain": 300 if quick else 2400, "tree": 130 if quick else 1100}
     programs = []
@@ -543,6 +574,7 @@ def run(ctx):
     cover = {}            # (world, op, kinds) -> count of executions that did not raise
     raised = {}
     violations = []       # value changes: (prog, idx, names)
+    unusable = []         # (prog, idx, [{name, error}]): an object whose todense() worked before the step and fails after it
     cfg_shared = {}
     label_shared = {}
     n_steps = 0
@@ -570,6 +602,8 @@ def run(ctx):
             obs_terms.append((p, idx, coq_obs(p["world"], st, sm), sm))
             if ob["value_changed"]:
                 violations.append((p, idx, [v["name"] for v in ob["value_changed"]], ob))
+            if ob.get("unusable"):
+                unusable.append((p, idx, ob["unusable"]))
             for a, k in ob.get("cfg_shared", []):
                 cfg_shared[(p["world"], st["op"], a)] = cfg_shared.get((p["world"], st["op"], a), 0) + 1
             for rf, name, of, _slot in ob.get("result_shares", []):
@@ -614,18 +648,28 @@ def run(ctx):
                 "kinds": ["?"], "code": o_["code"].format(t=tgt)}
     probes = []
     seen_probe = set()
-    for p, idx, term, sm in sig_fail:
+    sig_fail_ids = {(x[0]["id"], x[1]) for x in sig_fail}
+    cand = [(p, idx, sm, True) for p, idx, term, sm in sig_fail]
+    # declared sharing of a mutable prefactor / qntot object (dump -> load provenance): probe it with the library's own
+    # in-place operations -- no library operation may write through it
+    for p, idx, term, sm in obs_terms:
+        if (p["id"], idx) not in sig_fail_ids and p["steps"][idx]["cat"] == "derive" and (set(sm["share"]) & {"coeff", "qntot"}):
+            cand.append((p, idx, sm, False))
+    for p, idx, sm, outside in cand:
         st = p["steps"][idx]
-        if st["cat"] != "derive" or not (sm["share"] or sm["cross"]) or len(seen_probe) >= 6:
+        if st["cat"] != "derive" or not (sm["share"] or sm["cross"]) or len(seen_probe) >= 10:
             continue
-        k_ = (p["world"], re.sub(r"_(real|imag)(_adaptive)?$", "", st["op"]))
+        k_ = (p["world"], re.sub(r"_(real|imag)(_adaptive)?$", "", st["op"]), outside)
         if k_ in seen_probe:
             continue
         seen_probe.add(k_)
         partners = sorted({x[1] for x in byid[p["id"]]["steps"][idx].get("result_shares", [])} |
                           set(byid[p["id"]]["steps"][idx].get("result_is_input") or []))
-        for mut in ("scale_in", "poke"):
+        muts = ("scale_in", "poke") if outside else (("normalize_in", "normalize_in2", "scale_in") if p["world"] == "chain" else ("normalize_in", "scale_in"))
+        for mut in muts:
             for tgt in [st["res"]] + partners[:1]:
+                if mut.startswith("normalize") and p["world"] == "chain" and st["kinds"] and "mpo" in (st["kinds"][-1],) and tgt == st["res"]:
+                    continue
                 q = {"world": p["world"], "id": "probe-%d" % len(probes), "seed": p["seed"],
                      "steps": p["steps"][:idx + 1] + [mk_mut(p["world"], mut, tgt)]}
                 probes.append(q)
@@ -639,6 +683,8 @@ def run(ctx):
             last = r_["steps"][-1]
             if last["value_changed"]:
                 violations.append((q, len(q["steps"]) - 1, [v["name"] for v in last["value_changed"]], last))
+            if last.get("unusable"):
+                unusable.append((q, len(q["steps"]) - 1, last["unusable"]))
     # ------------------------------------------------------------------ report
     world_src, dense_src = impl_sources()
     reported = set()
@@ -667,6 +713,9 @@ def run(ctx):
                 key = "%s:%s:untouched-object-changed" % (p["world"], st["op"])
         if key in reported:
             continue
+        if len(reported) >= 8:
+            ctx.notes.append("further value changes not reported separately (cap 8 replays per run)")
+            break
         reported.add(key)
         seed = ctx.seed + p["seed"]
         steps = p["steps"][:idx + 1]
@@ -678,6 +727,44 @@ def run(ctx):
         ctx.violation(key, "frame property on the real code (%s); C13_frame's hypothesis 'every step obeys its signature' fails for %s in Model/Heap.v" % (what, st["model"]),
                       {"program": [s["code"] for s in steps], "changed_objects": ob["value_changed"], "step": st["code"],
                        "sig_ok_failing_rows": [r["fn"] for r in bad_rows],
+                       "operations_with_inadmissible_or_disagreeing_generated_rows": [b["methods"] for b in bad_ops]},
+                      found=True, repro=repro)
+    # an object that could be densified before a step and cannot afterwards (e.g. a tree whose root is left attached to
+    # a temporary node): the operation damaged it although tensors x prefactor may still be right
+    rep_un = set()
+    for p, idx, lst in unusable:
+        st = p["steps"][idx]
+        key = "%s:%s:object-unusable-after" % (p["world"], fam(st["op"]))
+        if key in rep_un:
+            continue
+        rep_un.add(key)
+        steps = p["steps"][:idx + 1]
+        names_ = [u["name"] for u in lst]
+        try:
+            cur = list(steps)
+            i = len(cur) - 2
+            while i >= 0:
+                cand_ = cur[:i] + cur[i + 1:]
+                defined = set(INIT[p["world"]])
+                okc = True
+                for s_ in cand_:
+                    if any(a_ not in defined for a_ in s_["args"]):
+                        okc = False
+                        break
+                    if s_["res"]:
+                        defined.add(s_["res"])
+                if okc and all(n_ in defined for n_ in names_):
+                    rc_, res_, out_ = ctx.impl("c13_obs.py", {"seed": ctx.seed, "programs": [{"world": p["world"], "id": "min", "seed": p["seed"], "steps": cand_}]}, timeout=200)
+                    if res_ and res_[0]["error"] is None and res_[0]["steps"] and \
+                            {u["name"] for u in res_[0]["steps"][-1].get("unusable", [])} >= set(names_):
+                        cur = cand_
+                i -= 1
+            steps = cur
+        except Exception as e:
+            ctx.notes.append("minimisation failed: %r" % (e,))
+        repro = make_repro(p["world"], ctx.seed + p["seed"], steps, [], world_src, dense_src, probe=names_)
+        ctx.violation(key, "frame property on the real code: after %s the library can no longer densify (todense / copy().todense) objects it could before; signature of %s in Model/Heap.v" % (st["op"], st["model"]),
+                      {"program": [s_["code"] for s_ in steps], "unusable_objects": lst,
                        "operations_with_inadmissible_or_disagreeing_generated_rows": [b["methods"] for b in bad_ops]},
                       found=True, repro=repro)
     # only the first step of a program that leaves its signature is reported (later steps act on an already
@@ -720,7 +807,7 @@ def run(ctx):
             broken.append("translator tx/opentries.py")
         if not ok_build or not ok_props:
             broken.append("theorem(s) of Props/C13.v: " + (", ".join(o["name"] for o in ctx.obligations if not o["ok"]) or "build"))
-        if not violations:
+        if not violations and not unusable:
             ctx.violation("evolve-entry-table", "; ".join(broken),
                           {"coq_log_tail": (log or "")[-1800:],
                            "sig_ok_failing_rows": [{"fn": r["fn"], "first": r["first"], "ret": r["ret"], "writes": r["writes"]} for r in bad_rows],
